@@ -113,7 +113,26 @@ theorem invK_step {s s' : State} {t : Nat} {l : Label} (h : Inv s) (hr : InvR s)
     simp only [upd, hu'.1, if_false]
     exact hk.K4 u hu'.2
   | fin6 cs => unfold step at hs; rw [hph] at hs; cases hs; kk
-  | linger => unfold step at hs; rw [hph] at hs; simp only at hs; split at hs <;> (first | (cases hs; done) | (cases hs; kk))
+  | linger =>
+    unfold step at hs; rw [hph] at hs; simp only at hs
+    split at hs
+    · cases hs; kk
+    · split at hs
+      · split at hs
+        · cases hs; kk
+        · cases hs
+          refine ⟨?_, ?_, hk.K3, hk.K4⟩
+          · intro p c hc
+            simp only [upd] at hc
+            split at hc
+            · rename_i hp; subst hp; exact hk.K1 _ c (List.mem_of_mem_erase hc)
+            · exact hk.K1 p c hc
+          · intro p
+            simp only [upd]
+            split
+            · exact (hk.K2 _).erase _
+            · exact hk.K2 p
+      · cases hs
   | fin2 cs =>
     unfold step at hs; rw [hph] at hs; simp only at hs
     split at hs
@@ -215,8 +234,9 @@ theorem reach_invK {s : State} (h : sys.Reach s) : InvK s := by
   induction h with
   | init hi => cases hi; exact invK_init
   | env hr he ih =>
-    rcases he with ⟨t, op, hc⟩ | ⟨x, rfl⟩
+    rcases he with ⟨t, op, hc⟩ | ⟨x, rfl⟩ | ⟨x, rfl⟩
     · exact invK_call ih hc
+    · exact ⟨ih.K1, ih.K2, ih.K3, ih.K4⟩
     · exact ⟨ih.K1, ih.K2, ih.K3, ih.K4⟩
   | step hr hs ih =>
     have := reach_invR hr
@@ -351,7 +371,15 @@ theorem rank_step {N : Nat} {s s' : State} {t : Nat} {l : Label} (h : Inv s) (hr
     · cases hs
       refine rank_lt_pc (p' := _) (c' := s.call t) ht rfl rfl (fun u hu => rfl) rfl ?_
       simp only [hph, wTh]; omega
-    · cases hs
+    · split at hs
+      · split at hs
+        · cases hs
+          refine rank_lt_pc (p' := _) (c' := s.call t) ht rfl rfl (fun u hu => rfl) rfl ?_
+          simp only [hph, wTh]; omega
+        · cases hs
+          refine rank_lt_pc (p' := _) (c' := s.call t) ht rfl rfl (fun u hu => rfl) rfl ?_
+          simp only [hph, wTh]; omega
+      · cases hs
   | fin2 cs =>
     unfold step at hs; rw [hph] at hs; simp only at hs
     split at hs
@@ -480,7 +508,13 @@ theorem step_nextId {s s' : State} {t : Nat} {l : Label} (hs : step s t = some (
   | fin4 cs => rw [hph] at hs; cases hs; rfl
   | fin5 cs => rw [hph] at hs; cases hs; rfl
   | fin6 cs => rw [hph] at hs; cases hs; rfl
-  | linger => rw [hph] at hs; simp only at hs; split at hs <;> (cases hs) <;> rfl
+  | linger =>
+    rw [hph] at hs; simp only at hs
+    split at hs
+    · cases hs; rfl
+    · split at hs
+      · split at hs <;> (cases hs; rfl)
+      · cases hs
   | fin2 cs =>
     rw [hph] at hs; simp only at hs
     split at hs
